@@ -477,18 +477,6 @@ func handle(req map[string]interface{}) (resp map[string]interface{}) {
 				m.Call(nil)
 				mutate(z1, 0)
 			}
-			// also what the getters of an all-unset object hand out
-			z2 := reflect.New(e.rt.Elem())
-			for i := 0; i < z2.NumMethod(); i++ {
-				name := z2.Type().Method(i).Name
-				mt := z2.Method(i).Type()
-				if strings.HasPrefix(name, "Get") && mt.NumIn() == 0 && mt.NumOut() == 1 {
-					func() {
-						defer func() { recover() }()
-						mutate(z2.Method(i).Call(nil)[0], 1)
-					}()
-				}
-			}
 		}
 		obj := reflect.ValueOf(e.New())
 		resp["value"] = dump(obj)
